@@ -240,6 +240,9 @@ func C06(p *an.Prog, r *an.Report) {
 	}
 	c06Twins(p, r)
 	c06VerifierKeys(p, r)
+	// G6: options survive serialise-and-parse: the mapping reader yields only strings from the one
+	// string reader (same rule as C11.M7), so the bytes verified after a round trip are the bytes signed
+	c11OneStringReader(p, r, "C06.G6")
 	c01DistinctElements(p, r, "C06.G3") // "still verifies after serialise and parse" needs every parsed list element kept distinct
 }
 
